@@ -97,6 +97,9 @@ class ModuleScopeSpec:
                     bad.append('C05: %s (a value import) lands in the type namespace' % what)
                 if self.k in ('FunctionId', 'VariantId', 'ModuleConstant') and not inv:
                     bad.append('C05: %s is not bound in the value namespace' % what)
+                if self.k in ('AdtId', 'TypeAliasId') and inv:
+                    bad.append('C05: %s binds a TYPE in the value namespace: when the exporting module also has a constructor of that name (`type Msg { Reset }` + `type Reset { .. }`), '
+                               'the type overwrites the constructor and `Reset` resolves to nothing' % what)
             if [k for k in keys(values) + keys(types) if k != self.local]:
                 bad.append('C05: %s binds a name other than the local name `%s`: %s / %s' % (what, self.local, keys(values), keys(types)))
         rec = {'cls': 'scope:%s:%s:%s' % ('alias' if self.has_alias else 'plain', self.k, self.local), 'ok': True,
@@ -201,6 +204,14 @@ def native_namespace_probes(oracle):
     g, r = goto(oracle, app2, 'ali.func', 4)
     ok = bool(g) and g[0][0] == 1
     out.append(('`ali.func` through `import mod as ali` must reach mod.gleam', ok, g if g is not None else r))
+    # values and types are separate namespaces also in the exporting module: a constructor Reset and a later type Reset
+    files = [{'path': '/app/src/main.gleam', 'text': 'import msg.{Reset}\nfn f() { Reset }\n', 'root': 0},
+             {'path': '/app/src/msg.gleam', 'text': 'pub type Msg { Reset Tick }\npub type Reset { Soft Hard }\n', 'root': 0}]
+    app3 = files[0]['text']
+    r = oracle.ask('goto', json.dumps({'files': files, 'roots': [{'path': '/app', 'local': True, 'deps': []}], 'file': 0, 'offsets': [app3.index('{ Reset }') + 2]}))
+    g = (r.get('goto') or [None])[0] if isinstance(r, dict) else None
+    ok = bool(g) and g[0][0] == 1 and g[0][1] == files[1]['text'].index('Reset')
+    out.append(('`import msg.{Reset}` where msg has a constructor Reset and, later, a type Reset: the value `Reset` must be the constructor', ok, g if g is not None else r))
     return out
 
 
